@@ -13,48 +13,29 @@ TB = ("Trusted: Coq 8.16.1 kernel incl. vm_compute (no native_compute, no extrac
 # pid -> (claimed?, level text, technique, extra note / reason when not claimed)
 REG = {
  'C01': (True,
-   "Coq model of the BER encoder (all modes) and of the guided BER decoder (interaction-tree style), each compared with /repo by "
-   "differential execution inside Coq (vm_compute) on random (type, value, mode) cases, plus an implementation-level round-trip "
-   "search with shrinking; theorems: header octets invert for every tag/length (unbounded), staged content/round-trip lemmas "
-   "(see evidence 'theorems' for the stage reached).",
-   "Rocq/Coq proof over a Gallina model of the codec + vm_compute correspondence against /repo",
-   "Round trip is proved for the stage listed in the evidence; beyond it the property rests on the correspondence and the search. "
-   "Known findings F01 (pinned by a test) is reported as KNOWN-FINDING. Decimal REAL and non-ASCII UTF-8/16/32 validity are outside the model."),
+   'Theorem (C01_roundtrip_every_mode_every_type): for every type of the universe (every constructor: simple types, SEQUENCE OF, SET OF, SEQUENCE/SET with mandatory, OPTIONAL and DEFAULT components, CHOICE, ANY, IMPLICIT/EXPLICIT tagging, any depth), every value, every mode of every encoder (definite, indefinite, segmented BER; CER; DER) and every trailing byte string, the BER and CER decoders return a value of the same abstract content and exactly the trailing bytes; the definite-mode statement holds for all three decoders; proved by induction over the type on a Gallina model of the codecs; the model is tied to /repo on every run by regenerated dispatch tables and by differential execution inside Coq (vm_compute) on random (type, value, mode) cases, plus an implementation-level round-trip search with shrinking.',
+   'Rocq/Coq proof (induction over the type universe on an interaction-tree model of the decoder) + vm_compute correspondence against /repo',
+   'Excluded by the theorem and reported as KNOWN-FINDING: F01 (EXPLICIT tag over a primitive in indefinite mode, pinned by a test). Decimal REAL, float REAL and text-codec validity beyond str_octets_ok are outside the model (counted as model_declines).'),
  'C02': (True,
-   "The three decoders are one Coq decoder model parameterised by dispatch tables regenerated from /repo; a computed table fact shows "
-   "DER entries only add rejections to CER entries and CER to BER (decoders-agree by refinement of tables); the encoder's fixed "
-   "CER/DER modes are table facts; the five (encoder, decoder) pairs and decoder agreement on DER/CER/BER-only encodings are checked by "
-   "differential execution in Coq and an implementation-level search with shrinking.",
-   "Rocq/Coq proof by computation over regenerated tables + model/implementation correspondence (vm_compute)",
-   "The full statement dec d (enc DER T v) = v over the universe is staged (see C01); known findings F01, F24 (both pinned by tests)."),
+   'Theorems: the DER encoding of any value of any type of the universe is accepted by the DER, CER and BER decoders with the same abstract content (SET OF as a multiset) (C02_der_accepted_stage3); CER round trip over the whole universe with the CER and BER decoders (C02_cer_roundtrip_stage3); the decoder tables regenerated from /repo refine each other DER <= CER <= BER; fixed encoder modes are table facts. Tied to /repo by differential execution in Coq of the five (encoder, decoder) pairs and an implementation-level search.',
+   'Rocq/Coq proof (induction over the type universe + computation over regenerated tables) + vm_compute correspondence against /repo',
+   'Excluded by the theorems and reported as KNOWN-FINDING: F01, F24 (both pinned by tests).'),
  'C03': (True,
-   "An independent X.690 reference written in Coq from the standard (Spec/X690.v: DER/CER as functions, a BER TLV-tree reader) is "
-   "evaluated by vm_compute against the implementation's DER/CER bytes (byte identity) and BER/CER outputs (same abstract value); "
-   "theorems: the reference's identifier and length octets coincide with the model of pyasn1's encoder for every tag and length.",
-   "Rocq/Coq: independent executable X.690 specification evaluated in the kernel's VM + equivalence lemmas (induction on digit recursion)",
-   "The byte-identity theorem enc DER = X690.der over the whole universe is proved only for the header layer so far; the rest is decided "
-   "per input by evaluating the reference. Known findings F01, F24 (pinned), F35."),
+   "An independent X.690 reference written in Coq from the standard (Spec/X690.v: canonical DER/CER encoders and a TLV-tree reader). Theorems: the DER encoder's output equals the reference byte for byte, in both directions (success and refusal), for simple types under any tags and SEQUENCE/SEQUENCE OF nesting with OPTIONAL/DEFAULT components; the CER encoder's output equals the reference's CER for simple types incl. segmented strings and meets the canonical-form rules; every BER/CER/DER encoder output in every mode is read by the reference reader to the same abstract value. Per input (all types): DER/CER bytes compared with the reference evaluated by vm_compute, BER/CER outputs read back.",
+   "Rocq/Coq: independent executable X.690 specification + equivalence proofs (induction over types and digit recursions) + evaluation in the kernel's VM",
+   'DER = reference for SET/SET OF/CHOICE/ANY and CER = reference for containers are decided per input only. Known findings F01, F24 (pinned).'),
  'C05': (True,
-   "Generic Coq theorems over interaction trees: any decoder using only all-or-nothing re-tryable reads, tell/seek-back/mark and the "
-   "end-of-stream test yields under every well-formed arrival schedule exactly the complete run's result after some underrun reports "
-   "(induction on the schedule; simulation lemmas by induction on the tree), underrun only while bytes are missing; instantiated for the "
-   "model of StreamingDecoder.__iter__ for every codec/fuel/guiding type. Tied to /repo by all 2^(n-1) partitions of short streams, sampled "
-   "schedules with polls/short reads/late close on seekable and non-seekable doubles, compared with `drive` evaluated in Coq.",
-   "Rocq/Coq proof (simulation + induction over schedules and interaction trees) + vm_compute correspondence against /repo",
-   "The instance for the decoder is conditional on the complete run not reaching ReadAll (reachable only via malformed string fragments); "
-   "the Python generator protocol is abstracted as resumption of a tree; BytesIO subclasses that grow are outside (fast path)."),
+   'Theorems: generic schedule independence for any interaction-tree decoder; and unconditionally for the decoder model: every run that consumes an encoding is a clean run (global invariant), hence for every value of the universe (definite mode) and every stage-2 value in indefinite/segmented/CER mode, ANY arrival schedule (any partition, polls, no end-of-stream needed) yields exactly the one-shot object at the end of the encoding. Tied to /repo by all 2^(n-1) partitions of short streams, sampled schedules with polls/short reads/late close on seekable and non-seekable doubles incl. streams longer than one buffer, compared with `drive` evaluated in Coq.',
+   'Rocq/Coq proof (simulation + induction over schedules and interaction trees; global cleanliness invariant) + vm_compute correspondence against /repo',
+   'The Python generator protocol is abstracted as resumption of a tree; BytesIO subclasses that grow are outside (fast path). Known finding F01.'),
  'C06': (True,
-   "Generic Coq theorems: a decoder that never observes the end of its input and decodes e treats every proper prefix on a closed stream "
-   "as the end-of-stream error and suspends on an open one; instantiated for the decoder model (any codec/fuel/type) under a computable "
-   "cleanliness condition on the complete run; exception lattice facts from regenerated tables. Tied to /repo by every cut point of "
-   "generated encodings in three presentations, with and without guiding type.",
-   "Rocq/Coq proof (induction over interaction trees) + vm_compute correspondence against /repo",
-   "Conditional on the run of the complete encoding being clean (no AtEOS/ReadAll), evaluated per case."),
+   'Theorems: every consuming run of the item decoder never observes the end of its input (any codec, fuel, guiding type or none); hence every strict prefix of the encoding of any value of the universe (definite mode; indefinite and CER modes for the recursive stage-2 fragment) is, at EVERY cut point, end-of-stream on a closed input and a suspension on an open one; exception lattice facts from regenerated tables. Tied to /repo by every cut point of generated encodings in three presentations, with and without guiding type.',
+   'Rocq/Coq proof (global invariant over all payload decoders + induction over interaction trees) + vm_compute correspondence against /repo',
+   'Stated for decode_with at a fuel covering the whole encoding; for `decode` (fuel from the prefix) a partial version. Known finding F01.'),
  'C07': (True,
-   "Generic Coq theorem: a clean decoder returns the same value whatever follows, stops at the same position, tail untouched; instance "
-   "for the decoder model; tied to /repo by encodings x tails {empty, zeros, another encoding, garbage} and streams of n encodings with positions.",
-   "Rocq/Coq proof (induction over interaction trees) + vm_compute correspondence against /repo",
-   "Known finding F01 (encoder appends a stray end-of-octets, pinned by a test)."),
+   'Theorems: one-shot decoding of e ++ t returns the value of e and t unchanged for every value of the universe (C07_tail_preserved_stage3); a stream of n encodings yields n objects and the position after the i-th is the end of the i-th encoding, one-shot and under any schedule (definite mode whole universe; indefinite mode stage 2); generic exact-consumption theorem. Tied to /repo by encodings x tails and streams of n encodings with positions on seekable and non-seekable doubles.',
+   'Rocq/Coq proof (induction over types and interaction trees) + vm_compute correspondence against /repo',
+   'Known finding F01 (encoder appends a stray end-of-octets, pinned by a test).'),
  'C11': (True,
    "Coq state-machine model of CachingStreamWrapper and of an abstract seekable stream; refinement theorem for every permitted "
    "operation history (induction on the history) for the repaired wrapper and, excluding the F06 class, for the code as it is; "
@@ -64,12 +45,9 @@ REG = {
    "F06 (position renumbering after a cache drop) is pinned by tests/codec/test_streaming.py::testMarkedPositionResets: known finding. "
    "That the decoders are permitted clients and that file/gzip/zip readers behave as the abstract stream is observed, not proved."),
  'C13': (True,
-   "Coq theorems over the tag/identifier/length model: identifier octets written by the encoder are read back by the decoder "
-   "for every class, form and number (unbounded), long form is minimal, definite lengths of any size round-trip, implicit/explicit "
-   "tag algebra; tied to /repo by differential execution of public encode/decode on the class x number grid (model evaluated "
-   "inside Coq by vm_compute) and by an implementation-level accept/reject search.",
-   "Rocq/Coq proof (induction over base-128/256 digit recursion) + vm_compute correspondence against /repo",
-   "Spine/near-miss theorems over the full type universe are added with the codec model (see evidence 'theorems')."),
+   "Theorems: identifier octets for every class, form and number (unbounded), long form minimal, IMPLICIT/EXPLICIT algebra, the emitted identifiers are the type's tags outermost first; decoding with the own type accepts (whole universe); decoding with a type whose tags differ in class or number at any level, or with more tags, is refused by every decoder (simple types under any tag stack). Tied to /repo by the class x number grid and an accept/reject search.",
+   'Rocq/Coq proof (induction over base-128/256 digit recursion and tag stacks) + vm_compute correspondence against /repo',
+   'Rejection for constructed base types is decided per input. One shape is genuinely ambiguous BER (witness in Props/C13.v).'),
  'C14': (True,
    "Inductive model of the 12 public constraint classes with a 3-valued evaluator following each _testValue, an independent "
    "set-theoretic denotation, and proofs by nested structural induction that evaluation = denotation at any depth, derived types "
@@ -78,13 +56,9 @@ REG = {
    "Rocq/Coq proof (nested structural induction over constraint trees) + vm_compute correspondence against /repo",
    "Known findings F14b, F14c, F13 (open). Float REAL arithmetic is outside the model."),
  'C04': (True,
-   "Coq theorems on the encoder model: permuting SET OF members (resp. SET components) leaves the CER/DER contents and the complete encoding "
-   "unchanged (stable insertion sort by padded octets / by outermost tag, under distinctness of keys; refutation witnesses without it); the "
-   "container models factor DER through abstract content for every reachable state; reads preserve DER. Tied to /repo by pairs of "
-   "construction histories reaching the same abstract value (permutations, explicit/implicit defaults, decode of BER variants, clone, "
-   "interleaved read-only uses) compared on DER and CER bytes and with the model.",
-   "Rocq/Coq proof (permutation invariance of stable sorts, induction over histories) + vm_compute correspondence against /repo",
-   "der(decode(e)) = e and 'decoded from any BER form' are decided per input by the harness; known findings F24 (pinned), F18a, F18d."),
+   'Theorem (C04_der_is_a_function_of_the_abstract_value): for every type of the universe, two values with the same abstract content (SET OF order, DEFAULT explicit or omitted, text or octets, REAL representation) have byte-identical DER encodings; on the container model: SET OF order is a function of the multiset, assignment order of positions is immaterial, reads preserve DER, for every reachable state. Tied to /repo by pairs of construction histories reaching the same abstract value (permutations, out-of-order assignment, in-place construction, explicit/implicit and constructed defaults, decode of BER variants, clone, interleaved reads) compared on DER, CER and BER bytes and with the model.',
+   'Rocq/Coq proof (induction over the type; permutation invariance of stable sorts; induction over histories) + vm_compute correspondence against /repo',
+   'CER analogue proved except SET OF of constructed members. Known findings F24 (pinned), F18a, F18d.'),
  'C08': (True,
    "The decoder model carries explicit Crash outcomes wherever the code performs an unguarded partial operation; theorems: on a closed stream "
    "the decoder never waits (always finishes) for every codec/fuel/type/input, the position never passes the input length; the crash-free "
@@ -93,18 +67,13 @@ REG = {
    "Rocq/Coq proof (totality by structural recursion + induction over interaction trees) + exhaustive/mutation correspondence (vm_compute)",
    "Known finding F22 (MemoryError for absurd lengths on real file readers). Step bound measured on stream doubles (reads <= 8*len+16)."),
  'C09': (True,
-   "An independent reference generator of BER(T, v) (every X.690 choice point random) is validated in Coq against the X.690 reference reader, "
-   "then the implementation and the decoder model decode each drawn encoding; theorems cover the framing-layer choice points (identifier "
-   "forms, over-long lengths with any number of leading zeros, any non-zero TRUE).",
-   "Rocq/Coq proof (framing layer) + reference-validated differential execution (vm_compute)",
-   "The completeness theorem over the whole relation is stated, not yet proved; decided per input."),
+   'Theorem (C09_all_forms): whatever the independent X.690 reader accepts as an encoding of abstract value a under T (any mix of length forms, definite/indefinite per level, nested segmentation, any non-zero TRUE, SET in any order, DEFAULT/OPTIONAL present or absent) the BER decoder accepts with the same abstract value and remainder, for every type without CHOICE/ANY. Per input: an independent reference generator of BER(T, v) validated in Coq by the reference reader, decoded by implementation and model.',
+   'Rocq/Coq proof (equivalence of two independent parsers, induction over the parse tree and the type) + reference-validated differential execution (vm_compute)',
+   'Side conditions of the theorem: binary REAL with at least one mantissa octet; ASCII-repertoire strings below 0x80 (library checks repertoire). CHOICE/ANY per input only.'),
  'C10': (True,
-   "Theorems over the decoder model for arbitrary input: a SEQUENCE/SET result has every mandatory member (induction over the member loop, "
-   "members decoded by an arbitrary sub-decoder), a definite-length element is accepted only when exactly its length was consumed; per input: "
-   "valid, neighbour-type and mutated encodings - on acceptance independent well-formedness, re-encodability and the decode(encode) fixpoint; "
-   "constrained types (value range, sizes incl. SEQUENCE OF/SET OF).",
-   "Rocq/Coq proof (induction over decoder loops via bind laws) + vm_compute correspondence against /repo",
-   "Full soundness statement staged; known findings F01, F24 (pinned)."),
+   "Theorems for EVERY byte string, codec and guiding type: a returned value is a complete, well-typed value of exactly the guiding type and the remainder is a suffix of the input (C10_accepted_is_well_formed); the same codec's encoder accepts it (C10_accepted_is_reencodable); the consumed length is what the length octets said. Per input: valid, neighbour-type and mutated encodings - on acceptance independent well-formedness, re-encodability and the decode(encode) fixpoint; constrained types; time and REAL witnesses.",
+   'Rocq/Coq proof (invariant of the decoder by induction on fuel, inversion through bind laws) + vm_compute correspondence against /repo',
+   'Constraints (value/size) are decided per input. Known findings F01, F24 (pinned), F56 (time types under CER/DER), F58 (REAL exponent beyond 255 octets).'),
  'C12': (True,
    "Coq theorems: encoding leaves abstract content/encoding/comparisons of all three container kinds unchanged; k independent step machines "
    "stepped in any interleaving reach the states they reach alone (induction on the interleaving), instantiated for suspended decoders "
@@ -113,18 +82,13 @@ REG = {
    "Rocq/Coq proof (product-machine interleaving, reads-inert lemmas) + vm_compute correspondence against /repo",
    "Threads (sampled schedules) and debug logging are exercised by the harness only; object identity/aliasing has no model."),
  'C15': (True,
-   "Computed facts on the dispatch tables regenerated from /repo on every run (every DER string decoder, by tag and by type id, forbids the "
-   "constructed form; DER has no indefinite lengths; DER and CER use the strict BOOLEAN decoder by tag and by type id) + model lemmas saying "
-   "what those entries do at any depth; tied to /repo by every single non-canonical rewrite of every element of generated DER encodings, "
-   "with and without guiding type.",
-   "Rocq/Coq proof by computation over regenerated tables + decoder lemmas + vm_compute correspondence",
-   "The defect this property was written for (F04) is repaired in /repo; a table regression breaks the table theorem directly."),
+   'Global theorems: if the DER decoder accepts ANY octet string (with no guiding type, or any guiding type without CHOICE/ANY), what it consumed parses - by the independent X.690 parser - to a tree with no indefinite length, no constructed string or BOOLEAN and only 00/FF in BOOLEANs, at every depth and under any tagging; CER and DER accept only 00/FF wherever a BOOLEAN element is reached; table facts on the tables regenerated from /repo. Tied to /repo by every single non-canonical rewrite of generated DER encodings, a systematic type x tagging x position grid, with and without guiding type, under varied call histories.',
+   'Rocq/Coq proof (derivation relation over decoder runs, bridge to an independent parser, computation over regenerated tables) + vm_compute correspondence',
+   'CER tree-level theorem excludes types with string components (fragments are collected raw). Observation: constructed BOOLEAN is accepted by CER/DER.'),
  'C16': (True,
-   "Theorem: the type object a schemaless decode builds carries exactly the wire tags under any stack of EXPLICIT tags (so re-encoding writes "
-   "the same identifier octets); per input: DER/BER/CER encodings of the implicit-free sub-universe decoded without schema by all three "
-   "decoders: value object, byte-identical DER re-encoding, same scalar leaves; model decode+re-encode compared in Coq.",
-   "Rocq/Coq proof (induction over explicit tag stacks) + vm_compute correspondence against /repo",
-   "Full statement staged; known finding F01 (pinned) shows through BER-indefinite/CER inputs."),
+   'Theorems: decoding WITHOUT a guiding type returns exactly the wire tags, the same skeleton and leaves, and DER re-encoding of the result reproduces the DER encoding of the original, for self-describing simple types under EXPLICIT tags and SEQUENCE/SEQUENCE OF/SET/SET OF nesting, all three decoders. Per input: DER/BER/CER encodings of the implicit-free sub-universe decoded without schema: value object, byte-identical DER re-encoding, same leaves; model compared in Coq.',
+   'Rocq/Coq proof (induction over types and explicit tag stacks) + vm_compute correspondence against /repo',
+   'CHOICE, absent OPTIONALs and the indefinite mode are decided per input. Known finding F01 (pinned).'),
  'C17': (True,
    "Coq model of the native encoder/decoder and of the bare-value branch of the BER/CER/DER encoders; theorems by induction on the type: native "
    "round trip preserves abstract content (ANY included), Python-value encoding equals value-object encoding for every codec/mode incl. absent "
